@@ -67,6 +67,26 @@ def _strip_cast(t):
     return t
 
 
+def _skips_a_round(backs, tr=None):
+    """some path through the loop body neither applies a word operator nor stores anything: position k is skipped.
+    One skip is the operator itself: for AND into a zero-initialised result, a round whose facts say that one of the
+    two words is 0 (0 & y == x & 0 == 0 is what the untouched result word already holds)."""
+    for st in backs:
+        evs = st.event_list()
+        li = max(k for k, e in enumerate(evs) if e.kind == "loop")
+        body = evs[li:]
+        wops = [e for e in body if e.kind == "call" and (e.extra.get("trait") or "").split("::")[-1] in ("BitAnd", "BitOr", "BitXor", "Not", "BitAndAssign", "BitOrAssign", "BitXorAssign")]
+        stores = [e for e in body if e.kind == "store"]
+        if not wops and not stores:
+            if tr == "BitAnd":
+                zero_word = any(f[0] == "eq" and isinstance(f[1], tuple) and f[1] and f[1][0] == "bin" and f[1][3] == mk_int(0) and ((f[1][1] == "Eq" and f[2] == 1) or (f[1][1] == "Ne" and f[2] == 0)) and isinstance(f[1][2], tuple) and f[1][2] and f[1][2][0] == "load" for f in st.facts)
+                zero_init = any(isinstance(x, tuple) and x and ((x[0] == "repeat" and x[1] == mk_int(0)) or (x[0] == "call" and str(x[1]).endswith("Bitset::<N>::new"))) for v in st.env.values() if isinstance(v, tuple) for x in [v] + list(subterms(v)))
+                if zero_word and zero_init:
+                    continue
+            return True
+    return False
+
+
 def _is_zip_chain(backs):
     evs = backs[0].event_list()
     chain = [e.extra.get("name") for e in evs if e.kind == "call" and e.extra.get("name") in ("iter", "iter_mut", "zip", "enumerate")]
@@ -478,8 +498,9 @@ def check(col, prog, tier, profile, fixture=None):
         if alt is None or not alt[0]:
             alt2 = _wordwise_alt(crate, I, b, tr, backs)
             alt = alt2 if alt2 is not None else alt
-        if alt is not None and not alt[0] and backs:
-            # a form the position analysis does not understand may still be the original zip chain (judged below)
+        if alt is not None and not alt[0] and backs and not _skips_a_round(backs, tr):
+            # a form the position analysis does not understand may still be the original zip chain (judged below);
+            # a round of the loop that applies no word operator at all (a `continue` fast path) is never that
             alt = None if _is_zip_chain(backs) else alt
         if alt is not None:
             okalt, desc = alt
